@@ -1,4 +1,6 @@
 """C02 - threshold setting round-trips within one sample; its methods are coherent."""
+import numpy as np
+
 from mc import ordertypes as ot
 from mc.props import thresh_common as tc
 
@@ -44,10 +46,63 @@ def work(tier, seed):
     for n in (ot.LADDER_QUICK[:5] if tier == "quick" else ot.LADDER_THOROUGH[:-1]):
         for tf in (True, False):
             items.append({"ladder": n, "tie_free": tf, "scalars": False})
+    # several hundred thousand scores with the classes in different dtypes (size thresholds of merge / sort paths):
+    # judged against a bisect-based counting model at a dozen targets per metric
+    for long_dtype, short_dtype in (("int64", "float64"), ("float32", "float64"), ("float64", "float64")):
+        items.append({"huge": 300_000, "long_dtype": long_dtype, "short_dtype": short_dtype})
     return items
 
 
+def _run_huge(item, ctx, seed):
+    import bisect
+
+    from mc import refs
+    from mc.harness import guarded
+    from score_analysis import Scores
+
+    n = item["huge"]
+    nl, ns = 2 * n // 3, n // 3
+    ldt, sdt = np.dtype(item["long_dtype"]), np.dtype(item["short_dtype"])
+    # long class: few distinct values when it is an integer class (0/1 scores), a fine grid otherwise; short class: floats in (0,1)
+    if ldt.kind == "i":
+        long_vals = (np.arange(nl) * 7 % 2).astype(ldt)
+    else:
+        long_vals = (((np.arange(nl) * 7919) % 100003) / 100003.0).astype(ldt)
+    short_vals = ((((np.arange(ns) * 104729) % 99991) + 0.5) / 99991.0).astype(sdt)
+    for long_is in ("pos", "neg"):
+        pos, neg = (long_vals, short_vals) if long_is == "pos" else (short_vals, long_vals)
+        spos, sneg = sorted(float(v) for v in pos.tolist()), sorted(float(v) for v in neg.tolist())
+        for cfg in (ot.CFGS[0], ot.CFGS[3]):
+            case = {"huge": n, "long_class": long_is, "long_dtype": ldt.name, "short_dtype": sdt.name, "cfg": cfg}
+            ok, s = guarded(ctx, "construct", case, Scores, pos.copy(), neg.copy(), score_class=cfg[0], equal_class=cfg[1])
+            if not ok:
+                continue
+            ctx.state()
+            targets = np.array([0.0, 0.05, 0.3333, 0.4, 0.45, 0.5, 0.55, 0.6, 0.9, 1.0])
+            for metric in tc.METRICS:
+                ok, th = guarded(ctx, "setter-array", dict(case, metric=metric), lambda: np.asarray(getattr(s, "threshold_at_" + metric)(targets), dtype=float))
+                ctx.tick(len(targets))
+                if not ok:
+                    continue
+                N = {"tpr": nl if long_is == "pos" else ns, "fnr": nl if long_is == "pos" else ns, "tnr": ns if long_is == "pos" else nl,
+                     "fpr": ns if long_is == "pos" else nl}.get(metric, n)
+                for r, t in zip(targets.tolist(), th.tolist()):
+                    ctx.nontrivial()
+                    # the metric just below and just above the returned threshold brackets r to one sample (ties: the 0/1 class)
+                    vals = []
+                    for tt in (tc.step(t, -4), t, tc.step(t, 4)):
+                        vals.append(float(refs.ref_rates(refs.ref_cm_sorted(spos, sneg, tt, cfg[0], cfg[1]))[metric]))
+                    lo_, hi_ = min(vals), max(vals)
+                    if not (lo_ - 1.0 / N - 1e-12 <= r <= hi_ + 1.0 / N + 1e-12):
+                        ctx.fail("bracket-within-one-sample", dict(case, metric=metric, r=r), observed={"threshold": t, "metric_around": vals}, expected=r)
+                        break
+    ctx.sample({"huge": n, "long_dtype": ldt.name, "short_dtype": sdt.name})
+    return None
+
+
 def run(item, ctx, tier, seed):
+    if "huge" in item:
+        return _run_huge(item, ctx, seed)
     b = bounds(tier)
     easy = [tuple(e) for e in b["easy"]]
     if "ladder" in item:
